@@ -1,0 +1,10 @@
+//go:build !verif
+
+package tools
+
+// Verification hooks (see verif_on.go). Without the `verif` build tag they are
+// empty functions: no allocation, no I/O, no branch on the environment.
+
+func VerifCrash(point string) {}
+
+func VerifTrace(event string, args ...interface{}) {}
